@@ -81,6 +81,12 @@ pub struct Wrappers {
     k: BTreeMap<Fieldless, Option<Newtype>>,
 }
 
+/// everything but `a` is skipped (validated, not decoded)
+#[derive(Deserialize, Serialize, Debug, PartialEq, Clone)]
+pub struct Known {
+    a: u8,
+}
+
 #[derive(Deserialize, Serialize, Debug, PartialEq, Clone)]
 pub struct Plain {
     a: i32,
@@ -497,6 +503,21 @@ pub fn types() -> Vec<TypeCase> {
             js(&w)
         }),
         tc!("Option<()>", Option<()>, |r| (*r.pick(&["null", "[]", "0"])).to_string()),
+        tc!("Known+skipped", Known, |r| {
+            // the skipped member holds a number shape, a hostile literal or a whole document
+            let v = match r.below(4) {
+                0 => numlit::number_shape(r.range(1, 140), r.below(64) as usize, r.chance(1, 4), r.range(0, 40)),
+                1 => numlit::hostile(r),
+                2 => format!("[{},{{\"q\":{}}}]", numlit::number_shape(r.range(1, 100), r.below(64) as usize, false, 0), numlit::hostile(r)),
+                _ => String::from_utf8_lossy(&doc::gen_any(r)).into_owned(),
+            };
+            if r.chance(1, 2) { format!("{{\"a\":1,\"zz\":{}}}", v) } else { format!("{{\"zz\":{} ,\"a\":1}}", v) }
+        }),
+        tc!("IgnoredAny", serde::de::IgnoredAny, |r| match r.below(3) {
+            0 => numlit::number_shape(r.range(1, 140), r.below(64) as usize, r.chance(1, 4), r.range(0, 40)),
+            1 => format!("[{}]", numlit::hostile(r)),
+            _ => String::from_utf8_lossy(&doc::gen_any(r)).into_owned(),
+        }),
         tc!("Plain", Plain, |r| js(&plain(r))),
         tc!("Defaults", Defaults, |r| {
             let d = Defaults { a: r.next() as i32, b: if r.chance(1, 2) { Some(rs(r)) } else { None }, c: vec![r.next() as i64] };
@@ -601,6 +622,6 @@ impl Check for C04 {
         ctx.sample(t.name);
     }
     fn required_classes(&self, _b: &str, _t: Tier) -> Vec<&'static str> {
-        vec!["outcome:both-ok", "outcome:both-err", "type:u128", "type:Untagged", "type:Flat", "type:Borrowing", "type:Shapes", "type:ByteBuf", "bytes-literal:not-utf8", "bytes-literal:utf8"]
+        vec!["outcome:both-ok", "outcome:both-err", "type:u128", "type:Untagged", "type:Flat", "type:Borrowing", "type:Shapes", "type:ByteBuf", "bytes-literal:not-utf8", "bytes-literal:utf8", "type:Known+skipped", "type:IgnoredAny"]
     }
 }
